@@ -1369,7 +1369,16 @@ class Interpreter(BaseInterpreter[TContext, TEvent]):
             #    already gone. Measured at +2 permanently live asyncio tasks
             #    per invocation — an unbounded leak for any server that
             #    invokes a child machine per request.
+            #
+            # 🏁 A child that FINISHED BY ITSELF (`done` / `error`) must be
+            #    stopped too: `stop()` is what releases the actors IT spawned,
+            #    their systemIds and their timers. Guarding on `== "running"`
+            #    dropped a completed child from `_actors` un-stopped, so its
+            #    own children kept running - still registered, still sending
+            #    and receiving - out of reach of every later `stop()`.
+            #    `stop()` tears a `done` / `error` interpreter down exactly
+            #    like a running one.
             if child_interpreter is not None:
                 self._actors.pop(child_interpreter.id, None)
-                if child_interpreter.status == "running":
+                if child_interpreter.status not in ("uninitialized", "stopped"):
                     await child_interpreter.stop()
